@@ -313,6 +313,13 @@ def _strategy_base():
         def spec(self):
             return SPECS[self.symbol]
 
+        def hyperparameters(self):
+            # declared only for sessions that ask for it (spec key 'declare_hp'); the values never influence the program
+            if SPECS and any(sp.get('declare_hp') for sp in SPECS.values()):
+                return [{'name': 'vf_a', 'type': int, 'min': 1, 'max': 9, 'default': 5},
+                        {'name': 'vf_b', 'type': float, 'min': 0.1, 'max': 0.9, 'default': 0.5}]
+            return []
+
         # -- observation
         def _log(self, name, extra=None):
             lvl = STATE['observe']
@@ -519,6 +526,8 @@ def _strategy_base():
 
         def on_close_position(self, order):
             self._log('on_close_position', getattr(order, '_vf_oid', -1))
+            if self.spec.get('read_metrics'):
+                _ = self.metrics          # reading the running metrics must not change anything
 
         def on_route_open_position(self, strategy):
             # reaction to ANOTHER route's fill: (re)declare own exits
@@ -612,8 +621,9 @@ def run_session(case):
         warm = {'%s-%s' % (X, s): {'exchange': X, 'symbol': s, 'candles': np.array(rows, dtype=float)} for s, rows in case['warmup'].items()}
     if case.get('keep_args') is not None:
         import copy
-        case['keep_args'].update({'before': copy.deepcopy((cfg, [dict(r, strategy=None) for r in routes], droutes, candles, warm)),
-                                  'live': (cfg, routes, droutes, candles, warm)})
+        hpa = case.get('hyperparameters')
+        case['keep_args'].update({'before': copy.deepcopy((cfg, [dict(r, strategy=None) for r in routes], droutes, candles, warm, hpa)),
+                                  'live': (cfg, routes, droutes, candles, warm, hpa)})
     err = None
     res = None
     try:
